@@ -207,6 +207,22 @@ def rule_CF(ctx, tier):
             rr.fail("port-overwritten", "Config::verify overwrites an explicitly configured btc_rpc_port", where=v.line_of(bb))
     else:
         rr.fail("port-writes=%d" % len(pw), "expected one write of btc_rpc_port in verify", where=v.span)
+    # the command line is parsed before the file is merged, so the generated clap definition may not carry constraints that
+    # only make sense on the merged configuration (`requires`, `conflicts_with`, `required`, value sets): an option given in
+    # the file and its companion on the command line must remain a legal start
+    ac = P.bodies.get("<teos::config::Opt as structopt::StructOptInternal>::augment_clap")
+    if ac is None:
+        rr.anchor_missing("<teos::config::Opt as StructOptInternal>::augment_clap")
+    else:
+        import collections as _c
+        meths = _c.Counter((call_target(t) or "").split("::")[-1] for bb, t in ac.calls() if "clap::Arg" in (call_target(t) or ""))
+        relational = sorted(m_ for m_ in meths if m_.startswith(("requires", "conflicts_with", "required_unless", "required_if", "group", "possible_value", "min_values", "max_values", "number_of_values", "overrides_with", "empty_values", "require_equals")))
+        if relational:
+            rr.fail("cli-constraint:%s" % ",".join(relational), "the command-line definition of `Opt` carries %s: it is enforced on the command line alone, before the file is merged, so a configuration whose other half is in teos.toml is refused although the merged configuration is valid" % ", ".join("`%s`" % m_ for m_ in relational), where=ac.span)
+        elif meths.get("required", 0) <= 1 and meths.get("default_value", 0) <= 1:
+            rr.ok("command-line options carry no cross-option constraints (%d options, all optional on the command line)" % meths.get("with_name", 0))
+        else:
+            rr.fail("cli-required", "the command-line definition of `Opt` makes %d option(s) required / defaulted on the command line (1 expected: data_dir): the value from the file can no longer apply" % max(meths.get("required", 0), meths.get("default_value", 0)), where=ac.span)
     # verify validates; it rewrites nothing the operator configured except the two documented normalisations
     extra = sorted(f for f in _writes(ctx, v) if f not in ("btc_rpc_port", "btc_network"))
     if not extra:
